@@ -33,7 +33,7 @@ func c44Find(c *Ctx, fnName string, idx int) string {
 	}
 	for _, in := range Calls("(*webdav.memFS).find").F(c.P, fn) {
 		call := in.(*ssa.Call)
-		if a := call.Call.Args[2]; WdIsParam(fn, idx)(a) || DependsOn(a, WdIsParam(fn, idx)) {
+		if a := BaselineArgs(&call.Call)[2]; WdIsParam(fn, idx)(a) || DependsOn(a, WdIsParam(fn, idx)) {
 			return Term(call)
 		}
 	}
